@@ -289,7 +289,9 @@ impl<'a> Flat<'a> {
                 }
                 Node::Equ(name, e) => {
                     let k = name.to_lowercase();
-                    if self.equs.contains_key(&k) {
+                    // one definition per name: not a second .equ, not the location counter, not (in any letter
+                    // case) a name that is #defined - the #define would be what a use in that spelling reads
+                    if self.equs.contains_key(&k) || k == "pc" || self.defines.iter().any(|d| d.eq_ignore_ascii_case(&k)) {
                         return fail(FailKind::DuplicateSymbol(name.clone()), file, here);
                     }
                     self.equs.insert(k, e.clone());
@@ -298,6 +300,9 @@ impl<'a> Flat<'a> {
                 Node::Def(name, r) => push(self, Item::Def(name.clone(), *r)),
                 Node::Undef(name) => push(self, Item::Undef(name.clone())),
                 Node::Define(name) => {
+                    if self.equs.contains_key(&name.to_lowercase()) {
+                        return fail(FailKind::DuplicateSymbol(name.clone()), file, here);
+                    }
                     self.defines.insert(name.clone());
                 }
                 Node::Message(k, t) => {
@@ -653,8 +658,9 @@ pub fn assemble(files: &[SourceFile]) -> RefResult {
                 if labels.contains_key(&k) {
                     return fail(FailKind::DuplicateLabel(l.clone()), p.file, p.line);
                 }
-                // a name has one definition: a label cannot share its name with an .equ
-                if fl.equs.contains_key(&k) {
+                // a name has one definition: a label cannot share its name with an .equ, the location counter
+                // or (in any letter case) a #define
+                if fl.equs.contains_key(&k) || k == "pc" || fl.defines.iter().any(|d| d.eq_ignore_ascii_case(&k)) {
                     return fail(FailKind::DuplicateSymbol(l.clone()), p.file, p.line);
                 }
                 labels.insert(k, (seg, cur));
@@ -792,7 +798,7 @@ pub fn assemble(files: &[SourceFile]) -> RefResult {
             Item::Set(name, e) => {
                 let v = eval_single(e, &env, at as i64, file, line)?;
                 let k = name.to_lowercase();
-                if !set_names.contains(&k) && (env.contains_key(&k) || defs.contains_key(&k)) {
+                if !set_names.contains(&k) && (env.contains_key(&k) || defs.contains_key(&k) || k == "pc" || fl.defines.iter().any(|d| d.eq_ignore_ascii_case(&k))) {
                     return fail(FailKind::DuplicateSymbol(name.clone()), file, line);
                 }
                 set_names.insert(k.clone());
@@ -800,6 +806,11 @@ pub fn assemble(files: &[SourceFile]) -> RefResult {
             }
             Item::Def(name, r) => {
                 let k = name.to_lowercase();
+                // a register keeps its name; pc and #define names are taken
+                let is_register = k.strip_prefix('r').map(|n| !n.is_empty() && n.len() <= 2 && n.chars().all(|c| c.is_ascii_digit()) && !(n.len() == 2 && n.starts_with('0')) && n.parse::<u8>().map(|v| v < 32).unwrap_or(false)).unwrap_or(false);
+                if is_register || k == "pc" || fl.defines.iter().any(|d| d.eq_ignore_ascii_case(&k)) {
+                    return fail(FailKind::DuplicateSymbol(name.clone()), file, line);
+                }
                 if defs.contains_key(&k) {
                     return Err(RefErr::Indeterminate("re-.def without .undef".into()));
                 }
@@ -809,8 +820,11 @@ pub fn assemble(files: &[SourceFile]) -> RefResult {
                 defs.insert(k, *r);
             }
             Item::Undef(name) => {
-                if defs.remove(&name.to_lowercase()).is_none() {
-                    return fail(FailKind::UndefAlias(name.clone()), file, line);
+                // (`.undef a, b` ends both)
+                for n in name.split(',') {
+                    if defs.remove(&n.trim().to_lowercase()).is_none() {
+                        return fail(FailKind::UndefAlias(name.clone()), file, line);
+                    }
                 }
             }
             Item::Instr { form, ops } => {
